@@ -1,4 +1,94 @@
-From HP Require Import Base.Prelude KV.Types KV.FS KV.Handle KV.Run.
-Example C05_smoke : snapshot kv_init <> [].
-Proof. vm_compute. discriminate. Qed.
-Print Assumptions C05_smoke.
+(* C05 -- Failures are typed, sentinel-matchable and name the caller's path.
+   Model: the key-value FS model (KV/FS.v); errors are [PathErr path class], [LinkErr old new class] or
+   [Bare class] (an error that is not a *PathError/*LinkError); classes are the sentinels of the library.
+   PROVED for the key-value layer:
+   (1) in EVERY state -- store failures included -- every failure of Stat, Mkdir, Remove, Chmod, Chtimes and
+       OpenFile is a PathError naming exactly the caller's path (never Bare, never another path);
+   (2) on every well-formed, fault-free state the class is the one the os package reports for the same
+       situation: invalid name -> ErrInvalid, existing -> ErrExist, missing -> ErrNotExist or (below a regular
+       file) ErrNotDir, non-empty directory -> ErrNotEmpty, removing the root -> ErrInvalid;
+   (3) an invalid name in Rename gives a LinkError with both caller names (C04's gate).
+   NOT proved: Rename's other failures, MkdirAll/RemoveAll (which may name an ancestor/descendant), and the
+   composition layers (mount, Sub, os, cache, tar): there the check compares full error values of the model
+   (kv, mount, Sub) and of the os package with the implementation's on every generated failure.
+   Known findings (harness): two precedence/ancestor differences from os, see known_findings.json. *)
+From HP Require Import Base.Prelude Base.Path KV.Types KV.FS KV.Handle KV.Run KV.GateProofs KV.TreeProofs KV.SpecProofs.
+Open Scope N_scope.
+
+Theorem C05_stat_failure_names_the_callers_path : forall st p e, snd (kv_stat st p) = inr e -> names_path p e.
+Proof. exact kv_stat_err_typed. Qed.
+Print Assumptions C05_stat_failure_names_the_callers_path.
+
+Theorem C05_mkdir_failure_names_the_callers_path : forall st p perm e, snd (kv_mkdir st p perm) = Some e -> names_path p e.
+Proof. exact kv_mkdir_err_typed. Qed.
+Print Assumptions C05_mkdir_failure_names_the_callers_path.
+
+Theorem C05_remove_failure_names_the_callers_path : forall st p e, snd (kv_remove st p) = Some e -> names_path p e.
+Proof. exact kv_remove_err_typed. Qed.
+Print Assumptions C05_remove_failure_names_the_callers_path.
+
+Theorem C05_chmod_failure_names_the_callers_path : forall st p m e, snd (kv_chmod st p m) = Some e -> names_path p e.
+Proof. exact kv_chmod_err_typed. Qed.
+Print Assumptions C05_chmod_failure_names_the_callers_path.
+
+Theorem C05_chtimes_failure_names_the_callers_path : forall st p t e, snd (kv_chtimes st p t) = Some e -> names_path p e.
+Proof. exact kv_chtimes_err_typed. Qed.
+Print Assumptions C05_chtimes_failure_names_the_callers_path.
+
+Theorem C05_openfile_failure_names_the_callers_path : forall st p flag perm e,
+  snd (kv_openfile st p flag perm) = inr e -> names_path p e.
+Proof. exact kv_openfile_err_typed. Qed.
+Print Assumptions C05_openfile_failure_names_the_callers_path.
+
+(* the sentinel for each situation (well-formed, fault-free state) *)
+Theorem C05_mkdir_sentinels : forall st p perm, good st ->
+  (valid_path p = false -> snd (kv_mkdir st p perm) = Some (PathErr p EINVAL)) /\
+  (valid_path p = true -> lookup (st_store st) p <> None -> snd (kv_mkdir st p perm) = Some (PathErr p EEXIST)) /\
+  (valid_path p = true -> lookup (st_store st) p = None -> ~ has_dir (st_store st) (path_dir p) ->
+     exists c, snd (kv_mkdir st p perm) = Some (PathErr p c) /\ (c = ENOENT \/ c = ENOTDIR)).
+Proof.
+  intros st p perm G. destruct (kv_mkdir_spec st p perm G) as (A & B & _ & D). split; [|split].
+  - intros V. apply A. exact V.
+  - intros V L. apply B; assumption.
+  - intros V L N. destruct (D V L N) as (c & E & C & _). exists c. auto.
+Qed.
+Print Assumptions C05_mkdir_sentinels.
+
+Theorem C05_remove_sentinels : forall st p, good st ->
+  (valid_path p = false -> snd (kv_remove st p) = Some (PathErr p EINVAL)) /\
+  (valid_path p = true -> lookup (st_store st) p = None ->
+     exists c, snd (kv_remove st p) = Some (PathErr p c) /\ (c = ENOENT \/ c = ENOTDIR)) /\
+  snd (kv_remove st dot) = Some (PathErr dot EINVAL) /\
+  (valid_path p = true -> p <> dot -> forall rc, lookup (st_store st) p = Some rc ->
+     is_dir (r_mode rc) = true -> child_names p (st_store st) <> [] -> snd (kv_remove st p) = Some (PathErr p ENOTEMPTY)).
+Proof.
+  intros st p G. destruct (kv_remove_spec st p G) as (A & B & C & D). split; [|split; [|split]].
+  - intros V. apply A. exact V.
+  - intros V L. destruct (B V L) as (c & E & Cc & _). exists c. auto.
+  - apply C.
+  - intros V Dp rc L Dd NE. specialize (D V Dp rc L). rewrite Dd in D.
+    destruct (child_names p (st_store st)); [congruence|]. apply D.
+Qed.
+Print Assumptions C05_remove_sentinels.
+
+Theorem C05_stat_sentinels : forall st p, good st ->
+  (valid_path p = false -> snd (kv_stat st p) = inr (PathErr p EINVAL)) /\
+  (valid_path p = true -> lookup (st_store st) p = None ->
+     exists c, snd (kv_stat st p) = inr (PathErr p c) /\ (c = ENOENT \/ c = ENOTDIR) /\
+               ((p = dot \/ has_dir (st_store st) (path_dir p)) -> c = ENOENT)).
+Proof. intros st p G. destruct (kv_stat_spec st p G) as (_ & A & _ & C). split; assumption. Qed.
+Print Assumptions C05_stat_sentinels.
+
+(* Rename: an invalid name gives a LinkError carrying both caller names *)
+Theorem C05_rename_invalid_name_is_a_link_error : forall st a b,
+  valid_path a = false \/ valid_path b = false ->
+  snd (step st (Rename a b)) = VErr (LinkErr a b EINVAL).
+Proof. intros st a b H. apply gate_rename. exact H. Qed.
+Print Assumptions C05_rename_invalid_name_is_a_link_error.
+
+Example C05_nonvacuous :
+  snd (step kv_init (Mkdir (S "a/b") 493)) = VErr (PathErr (S "a/b") ENOENT)
+  /\ snd (step (exec [WriteFile (S "f") [1] 420]) (Mkdir (S "f/x") 493)) = VErr (PathErr (S "f/x") ENOTDIR)
+  /\ snd (step (exec [WriteFile (S "f") [1] 420]) (Stat (S "f/x/y"))) = VErr (PathErr (S "f/x/y") ENOTDIR)
+  /\ snd (step (exec [MkdirAll (S "d/e") 493]) (Remove (S "d"))) = VErr (PathErr (S "d") ENOTEMPTY).
+Proof. vm_compute. repeat split; reflexivity. Qed.
